@@ -16,7 +16,7 @@ def run(s):
 
 # ----------------------------------------------------------------------------- harness-side reading of the property (shared: harness/gen_lic.py)
 sys.path.insert(0, os.path.dirname(os.path.dirname(os.path.abspath(__file__))))
-from gen_lic import KELVIN, WS, alower, tokenize, fold_tables
+from gen_lic import KELVIN, WS, WS_SET, alower, tokenize, fold_tables
 import gen_lic
 IDS, EXCS = fold_tables([v["id"] for v in LICENSES.values()], [v["id"] for v in EXCEPTIONS.values()])
 
@@ -119,6 +119,39 @@ def strict_ref_law(s):
     return "ok"
 
 
+_REF = re.compile(r"(?:L|l)(?:I|i)(?:C|c)(?:E|e)(?:N|n)(?:S|s)(?:E|e)(?:R|r)(?:E|e)(?:F|f)-([A-Za-z0-9.-]+)", re.ASCII)
+
+
+def simple_reading(t):
+    """What one token means as a simple expression, written from SPDX Annex D (not from gen_lic.spec, not from the code):
+    strict  = license-ref without document prefix ("LicenseRef-" in any ASCII case + 1*(ALPHA/DIGIT/"-"/".")) -> "LicenseRef-" + idstring
+              | license-id | license-id "+"  (ids of the bundled table up to ASCII case; the split is forced: "+" iff the token ends in "+")
+    extra   = the one form beyond it that LicIds.ref_with_plus names: a license-ref followed by "+"
+    Returns (kind, canonical) with kind in {"strict", "ref+", None}.  (Coq: LicIds.strict_simple / ref_with_plus,
+    C19_simple_ids_vs_spdx_proper.)"""
+    m = _REF.fullmatch(t)
+    if m: return "strict", "LicenseRef-" + m.group(1)
+    if t.endswith("+"):
+        m = _REF.fullmatch(t[:-1])
+        if m: return "ref+", "LicenseRef-" + m.group(1) + "+"
+    core, plus = (t[:-1], "+") if t.endswith("+") else (t, "")
+    if not alower(core).startswith("licenseref-") and alower(core) in IDS: return "strict", IDS[alower(core)] + plus
+    return None, None
+
+
+def simple_law(t):
+    """A token alone, and after WITH: the function accepts it exactly as the reading above says (an exception: the table id up to
+    ASCII case), and returns that spelling."""
+    if any(c in WS_SET or c in "()" for c in t) or not t: return "ok"
+    kind, want = simple_reading(t)
+    got = run(t)
+    if got != want: return "simple expression %r: Annex D reading (%s) gives %r, implementation %r" % (t, kind, want, got)
+    wantx = ("MIT WITH " + EXCS[alower(t)]) if alower(t) in EXCS else None
+    gotx = run("MIT WITH " + t)
+    if gotx != wantx: return "exception %r: reading gives %r, implementation %r" % (t, wantx, gotx)
+    return "ok"
+
+
 def lower_probe():
     """str.lower()/str.split() facts the model relies on, over all code points except surrogates."""
     for c in range(0x110000):
@@ -190,6 +223,8 @@ def observe(cmd, args):
         return gen_lic.spec_obs(args[0], IDS, EXCS)
     if cmd == "law.l.evaldepth":
         return depth_probe()
+    if cmd == "law.l.simple":
+        return simple_law(args[0])
     if cmd == "law.l.strictref":
         return strict_ref_law(args[0])
     if cmd == "law.l.evalprobe":
